@@ -275,6 +275,11 @@ def triage(prop, plan, g, known):
         # A hang is a deterministic loop and reproduces in a fresh process (60 s limit there); a worker that was only
         # starved by a loaded machine does not.  Counted, not judged.
         return ('excluded', 'watchdog:not-a-hang (worker starved, plan completes when replayed alone)')
+    if v0['cls'] == 'watchdog:timeout' and v1 is not None and v1['cls'] != 'watchdog:timeout':
+        # the worker was killed by the wall-clock watchdog on a loaded machine while this plan was in flight; alone, the plan
+        # ends quickly with another outcome (e.g. a sanitizer report inside libtiff that is excluded as third-party):
+        # that outcome is what gets judged
+        v0 = v1
     if not same(v1):
         # the site of an A/B mismatch or a step-budget report is the config string and stable; sanitizer sites come from the stack
         log('alarm did not reproduce alone:', v0, '->', v1, g['origin'])
